@@ -1645,7 +1645,7 @@ func (t *trial) judge(s *sub) bool {
 			before = q + 1
 		}
 		if before > int64(b) {
-			fail("backlog-bound", fmt.Sprintf("when response #%d was dequeued its queue held %d entries (%d counting the one just dequeued, nothing else being inserted at that time), more than the %d the statement allows (one per offered leaf incarnation + one per delete notification + sync marker; K=%d updates were written)", i, q, q+1, b, t.K), map[string]interface{}{"bound": b, "queue_size_reported": q, "counted": before})
+			fail("backlog-bound", fmt.Sprintf("when response #%d was dequeued its queue held %d entries (%d counting the one just dequeued, nothing else being inserted at that time), more than the %d the statement allows (one per offered leaf incarnation + one per delete notification + sync marker; K=%d updates were written)", i, q, before, b, t.K), map[string]interface{}{"bound": b, "queue_size_reported": q, "counted": before})
 			return false
 		}
 	}
